@@ -17,6 +17,10 @@ claims={
         "With revocation on, every accept path fetches, parses and authenticates both CRLs against the stated certificates, checks PCK-CRL issuer == leaf issuer, and scans the right CRL for the right serial over the whole list; CheckRevocations without GetCollateral has no accept path."),
  "C06":("pairing table over enforced time gates + exactness of time comparisons + default time set shape",
         "Every time-bearing artifact has an enforced !now.After(expiry) gate against its own TimeSet field in the partition that fetches it, no time gate pairs an artifact with a foreign field, x509 validations run at the matching field, and the default time set is five time.Now() calls."),
+ "C07":("must-pass-through gates with operand provenance + first-match/exact-selection loop structure + decoder exhaustiveness + read-only table for decoded collateral",
+        "QE report vs signed QE Identity: masked MISCSELECT and ATTRIBUTES, MRSIGNER, ISVPRODID, first-match level with isvsvn <= ISVSVN, UpToDate; status decoder accepts exactly the declared statuses; decoded collateral reaches only read-only library functions."),
+ "C12":("gate-set inclusion across option partitions + reachable call-site enumeration on the pruned inlined call tree + who-may-write on Options + package-state rule",
+        "Sufficient condition for monotonicity (gate-set inclusion), fetch gating per option assignment with URL/getter provenance, CA selection, URL builder formats, and absence of history: only unexported per-call fields of the caller's Options are stored (each before its first reader) and no package-level mutable state is touched. The store of options.Now is reported as a known finding."),
 }
 na={"C11":"acceptance of every honest quote is an existential, value-dependent completeness property; no structural necessary condition of it is both statically checkable and sensitive to realistic over-strict changes (DESIGN.md section 4/C11)"}
 setup="cd /verif/checker && GOFLAGS=-mod=mod GOPROXY=off GOSUMDB=off GOTOOLCHAIN=local GOWORK=off go build -o /verif/bin/tdxlint ./cmd/tdxlint"
